@@ -1,4 +1,5 @@
-import B2Z.Regions
+import B2Z.Model.Regions
+import B2Z.Proofs.Chain
 namespace B2Z.Regions
 
 def RecOK (r : Rec) : Prop := 1 ≤ r.pos ∧ r.pos < M
